@@ -15,6 +15,9 @@ STR_VALUES = ["abc", "x.y", "a-b_c", "10k", "path/to", "v1.2.3", "True", "0"]
 # identifiers that only differ in case, or in a character that is a wildcard for SQL LIKE / GLOB / regexes
 CONFUSABLE_NAMES = ["t-1", "t_1", "T_1", "t11", "a", "A", "x_2", "x-2", "X_2", "a_", "ab"]
 ODD_STR_VALUES = ["caf\u00e9", "\u65e5\u672c", "na\u00efve-\u00fc", "\udc80x", "a\udcffb"]   # non-ASCII; lone surrogates = raw non-UTF-8 bytes
+# values bash does something with (word splitting, parameter expansion, globbing, tilde); the simulated child does not
+# interpret them, the oracle compares the run string itself
+SHELL_STR_VALUES = ["two words", "$COND_OUT/result.csv", "$COND_NAME", "~/data", "*.csv", "a  b", "x y z"]
 
 
 def tid(pkg, name):
